@@ -32,13 +32,13 @@ const char *__asan_default_options(void) { return "quarantine_size_mb=16:thread_
 #define MAXALLOC (1u << 16)
 
 enum { CL_SS, CL_PLANES, CL_ALIGN, CL_FLOWDEF, CL_NOT_MULT, CL_MAP_REFUSED, CL_MAP_NEG, CL_MAP_SUB, CL_MAP_WRITE,
-       CL_RESIZE_OK, CL_RESIZE_REFUSED, CL_RESIZE_NEG, CL_CHAIN, CL_COPY, CL_COPY_EXT, CL_DUP, CL_ILV_OK, CL_ILV_REFUSED,
+       CL_RESIZE_OK, CL_RESIZE_REFUSED, CL_RESIZE_NEG, CL_CHAIN, CL_COPY, CL_COPY_EXT, CL_COPY_OTHER_SS, CL_DUP, CL_ILV_OK, CL_ILV_REFUSED,
        CL_OUTDOM, CL_TWO_MGR, CL_POOL, CL_ZERO, CL_SHRINK_SHARED };
 static const char *const class_names[] = {
     "sample_size_gt1", "planes_gt1", "align_nonzero", "mgr_from_flow_def", "plane_not_multiple_of_align",
     "map_refused", "map_negative_offset_accepted", "map_subwindow_accepted", "map_write_window",
     "resize_accepted", "resize_refused", "resize_negative_offset_accepted", "chain_ge2_nonzero_offsets",
-    "copy_accepted", "copy_extending", "dup", "interleave_ok", "interleave_refused",
+    "copy_accepted", "copy_extending", "copy_to_manager_with_another_sample_size_refused", "dup", "interleave_ok", "interleave_refused",
     "out_of_domain_accepted", "two_managers_used", "pool_depth_gt0", "zero_size_buffer", "resize_on_shared", NULL };
 
 static const char *const chan_names[MAXP] = { "l", "r", "c", "L", "R", "S", "x6", "x7" };
@@ -513,6 +513,30 @@ static void op_copy(struct ctx *c, bool replace)
     bool must_accept = skip < S && rs > 0 && skip + rs > 0;
     c->hash = vp_hash_mix(c->hash, 0x500 + s + replace * 8 + mi * 16);
     c->hash = vp_hash_mix(c->hash, ((uint64_t)(uint32_t)skip << 32) | (uint32_t)sz);
+    if ((b & 0xf0) == 0xf0) {
+        /* a manager with the same planes and another sample size: the samples cannot be copied, the request is refused and the
+         * source stays as it is */
+        int ss2 = c->ss > 1 ? c->ss / 2 : 2;
+        struct ubuf_mgr *mx = ubuf_sound_mem_mgr_alloc(0, 0, c->fm.umem_mgr, ss2, 0);
+        for (int p = 0; mx && p < c->np; p++) if (!ubase_check(ubuf_sound_mem_mgr_add_plane(mx, c->chan[p]))) { ubuf_mgr_release(mx); mx = NULL; }
+        if (!mx) { c->ret = vp_internal(c->rep, "manager with sample size %d", ss2); return; }
+        struct ubuf *before = h->u, *got = NULL; int err = 0;
+        if (replace) { err = ubuf_sound_replace(mx, &h->u, skip, sz); got = ubase_check(err) ? h->u : NULL; }
+        else got = ubuf_sound_copy(mx, h->u, skip, sz);
+        R("  %s(h%d size %d -> manager with sample size %d instead of %d, %d,%d) -> %s\n", replace ? "ubuf_sound_replace" : "ubuf_sound_copy", s, S, ss2, c->ss, skip, sz, got ? "ok" : "refused");
+        c->hash = vp_hash_mix(c->hash, 0x5f0);
+        if (got != NULL) {
+            if (!replace) ubuf_free(got); else { c->grefs[h->group]--; h->u = NULL; ubuf_free(got); }
+            ubuf_mgr_release(mx);
+            FAIL("C19/refuse/copy-sample-size", "%s of %d samples of %d octets into a manager whose samples have %d octets is accepted", replace ? "ubuf_sound_replace" : "ubuf_sound_copy", S, c->ss, ss2);
+            return;
+        }
+        if (h->u != before) { ubuf_mgr_release(mx); c->ret = vp_internal(c->rep, "replace failed but changed the pointer"); return; }
+        ubuf_mgr_release(mx);
+        CL(CL_COPY_OTHER_SS);
+        verify_all(c, "copy-refused", "copy to a manager with another sample size");
+        return;
+    }
     struct ubuf *nu = NULL;
     if (replace) { int err = ubuf_sound_replace(c->mg[mi].mgr, &h->u, skip, sz); nu = ubase_check(err) ? h->u : NULL; }
     else nu = ubuf_sound_copy(c->mg[mi].mgr, h->u, skip, sz);
